@@ -64,9 +64,9 @@ def run(tier, seed):
     chk.assumptions = [
         "sort keys are same-typed per column (the comparators answer Equal across kinds and are then no preorder); NaN, -0.0, non-scalar values not modelled",
         "f64 sums of the accumulators are exact on the generated inputs (integers, partial sums below 2^53); float rounding under re-association is out of scope",
-        "chunks hold at most 65535 rows (above that: finding C17-K3); selection vectors on input chunks are ascending and in range (as the pull operators produce them)",
+        "chunks hold at most 65535 rows (above that: open finding C17-K3); selection vectors on input chunks are ascending and in range (as the pull operators produce them)",
         "the 64-bit SipHash values used by DISTINCT / GROUP BY / merge_distinct_results are inputs of the model; their injectivity on the "
-        "values of a run is checked by the harness on every case (the NULL/FALSE collision is finding C17-K8; any other collision makes the case 'na')",
+        "values of a run is checked by the harness on every case (a collision makes the case 'na'; NULL and FALSE collided before b5cd4ea: C17-K8, fixed)",
         "OS thread schedules of ParallelPipeline::execute are not controlled (quick and thorough); results are compared as bags / after the real merge",
         "the serializer hop of the spill files is the identity on the modelled values (observed by the run; proved for the codec in C16)",
     ]
